@@ -51,13 +51,25 @@ NTabs == (Len(TFSeq) + TabLen - 1) \div TabLen
 \* every feature carries a /label qualifier (value "t<j>"), listed first
 Table(b) == LET lo == (b - 1) * TabLen  n == IMin(TabLen, Len(TFSeq) - lo)
             IN [j \in 1..n |-> [key |-> TFSeq[lo + j].key, loc |-> TFSeq[lo + j].loc, label |-> "t" \o ToString(j),
-                                 cv |-> << <<"label", << <<"t", ToString(j)>> >> >> >> \o TFSeq[lo + j].cv]]
+                                 \* a feature without qualifiers carries no qualifier VALUE at all: it is identified
+                                 \* by a value-less marker qualifier named t<j>
+                                 nolabel |-> (TFSeq[lo + j].cv = <<>>),
+                                 cv |-> IF TFSeq[lo + j].cv = <<>> THEN << <<"t" \o ToString(j), <<>>>> >>
+                                        ELSE << <<"label", << <<"t", ToString(j)>> >> >> >> \o TFSeq[lo + j].cv]]
 Clauses == {[name |-> nm, re |-> re, bare |-> FALSE] : nm \in Names \cup {""}, re \in Res}
            \cup {[name |-> nm, re |-> [k |-> "empty"], bare |-> TRUE] : nm \in Names}
 Sels == {[key |-> k, clauses |-> <<>>] : k \in TKeys \cup {""}}
         \cup {[key |-> k, clauses |-> <<c>>] : k \in {"gene", ""}, c \in Clauses}
         \cup {[key |-> "", clauses |-> <<c, d>>] : c \in {x \in Clauses : x.name = "n"}, d \in {x \in Clauses : x.name # "n" /\ x.re.k \in {"lit", "empty"}}}
 SelFilt(s) == [f |-> "sel", sel |-> s, s |-> PrintSel(s)]
+\* other spellings of the unnamed clause with an empty regexp: an empty segment followed by another slash
+AnyValue == [name |-> "", re |-> [k |-> "empty"], bare |-> FALSE]
+Spelt == { [f |-> "sel", sel |-> [key |-> "gene", clauses |-> <<AnyValue>>], spelt |-> TRUE, s |-> "gene//"],
+           [f |-> "sel", sel |-> [key |-> "", clauses |-> <<AnyValue>>], spelt |-> TRUE, s |-> "//"],
+           [f |-> "sel", sel |-> [key |-> "cds", clauses |-> <<AnyValue, AnyValue>>], spelt |-> TRUE, s |-> "cds///"],
+           [f |-> "sel", sel |-> [key |-> "gene", clauses |-> <<AnyValue, [name |-> "n", re |-> [k |-> "empty"], bare |-> TRUE]>>], spelt |-> TRUE, s |-> "gene//n"],
+           [f |-> "sel", sel |-> [key |-> "", clauses |-> <<AnyValue>>], spelt |-> TRUE, s |-> "/="],
+           [f |-> "sel", sel |-> [key |-> "gene", clauses |-> <<>>], spelt |-> TRUE, s |-> "gene/"] }
 Basic == {[f |-> "within", l |-> l, u |-> u] : l \in {0, 2}, u \in {3, 6}}
          \cup {[f |-> "overlap", l |-> l, u |-> u] : l \in {0, 2}, u \in {3, 6}}
          \cup {[f |-> "fwd"], [f |-> "rev"], [f |-> "true"], [f |-> "false"], [f |-> "key", key |-> "gene"], [f |-> "key", key |-> ""]}
@@ -66,19 +78,19 @@ Combos == {[f |-> "and", xs |-> <<a, b>>] : a \in Basic, b \in Basic}
           \cup {[f |-> "not", x |-> a] : a \in Basic}
           \cup {[f |-> "and", xs |-> <<a>>] : a \in Basic} \cup {[f |-> "or", xs |-> <<a>>] : a \in Basic}
           \cup {[f |-> "not", x |-> [f |-> "and", xs |-> <<a, [f |-> "not", x |-> b]>>]] : a \in {x \in Basic : x.f = "within"}, b \in {x \in Basic : x.f \in {"fwd", "rev"}}}
-Filters == SetToSeq({SelFilt(s) : s \in Sels} \cup Basic \cup Combos)
+Filters == SetToSeq({SelFilt(s) : s \in Sels} \cup Spelt \cup Basic \cup Combos)
 
 NItems == CASE Mode = "less" -> (NLU * NLU + Batch - 1) \div Batch
             [] Mode = "insert" -> (Len(InsSeq) + Batch - 1) \div Batch
             [] Mode = "select" -> NTabs
-Picked == SelectSeq([j \in 1..NItems |-> j], LAMBDA j : j % Stride = Offset % Stride)
+Picked == SelectSeq([j \in 1..NItems |-> j], LAMBDA j : (j + (j \div Stride) + (j \div (Stride * Stride))) % Stride = Offset % Stride)
 
 PairAt(k) == <<LUSeq[(k \div NLU) + 1], LUSeq[(k % NLU) + 1]>>   \* k in 0..NLU*NLU-1
 
 FeatJson(f, lab) ==
   [key |-> f.key, label |-> lab, loc |-> f.loc,
    props |-> [j \in 1..Len(f.cv) |-> <<f.cv[j][1]>> \o [q \in 1..Len(f.cv[j][2]) |-> Cat(f.cv[j][2][q])]],
-   cv |-> f.cv]
+   cv |-> f.cv, nolabel |-> IF "nolabel" \in DOMAIN f THEN f.nolabel ELSE FALSE]
 
 BatchJson(b) ==
   CASE Mode = "less" ->
